@@ -9,7 +9,12 @@ import random
 import sys
 from abc import ABCMeta, abstractmethod
 from contextlib import contextmanager
-from types import CodeType, FrameType
+from types import (
+    CodeType,
+    FrameType,
+    GetSetDescriptorType,
+    MemberDescriptorType,
+)
 from typing import Any, Callable, Dict, Iterator, Optional, Tuple, Union, cast
 
 import opcode
@@ -118,15 +123,29 @@ def get_func_in_mro(obj: Any, code: CodeType) -> Optional[Callable[..., Any]]:
     return _has_code(cand, code)
 
 
+def _getattr_static(obj: Any, name: str) -> Any:
+    """Like getattr(obj, name, None), but never runs user code.
+
+    Candidates come from module globals and callers' locals, so they can be
+    arbitrary objects (lazy proxies, mocks) whose __getattr__ or
+    __getattribute__ must not be triggered by a lookup.
+    """
+    val = inspect.getattr_static(obj, name, None)
+    if isinstance(val, (GetSetDescriptorType, MemberDescriptorType)):
+        # e.g. function.__code__: a slot of a builtin type, resolved in C
+        return val.__get__(obj, type(obj))
+    return val
+
+
 def _has_code(
     func: Optional[Callable[..., Any]], code: CodeType
 ) -> Optional[Callable[..., Any]]:
     while func is not None:
-        func_code = getattr(func, "__code__", None)
+        func_code = _getattr_static(func, "__code__")
         if func_code is code:
             return func
         # Attempt to find the decorated function
-        func = getattr(func, "__wrapped__", None)
+        func = _getattr_static(func, "__wrapped__")
     return None
 
 
